@@ -171,8 +171,8 @@ func genC02(c *Ctx) {
 						if len(l[0]) > 0 && l[0][0] == '@' {
 							l[0] = append([]byte("x"), l[0]...)
 						}
-					case 1: // '+' line replaced
-						l[2] = []byte("-")
+					case 1: // '+' line replaced (by something else, or by an empty line)
+						l[2] = [][]byte{[]byte("-"), nil, []byte(" +"), []byte("x+")}[c.rng.Intn(4)]
 					case 2: // quals of different length
 						l[3] = append(append([]byte(nil), r.Quals...), 'I')
 					case 3, 4, 5: // cut short after 1, 2, 3 lines
